@@ -110,16 +110,11 @@ theorem Lx_prefix (o : Opts) (e : Bool) (dsc : Option Text) (body : Text) (toks 
   · have := Lx.nameI (n := kw "extend") (c := ' ') (by decide) (by decide) h
     simpa [s, kw] using this
 
-/-- in a federation export the federation machinery's fields are not written: they must not be
-    registered as ordinary fields -/
-def FedFields (o : Opts) : TypeDef → Prop
-  | .object _ _ _ _ fs | .interface _ _ _ _ fs =>
-    ∀ f ∈ fs, (o.federation && (f.name = s "_service" || f.name = s "_entities")) = false
-  | _ => True
+/-- (no longer a restriction: the repaired exporter writes every field it is handed) -/
+def FedFields (_o : Opts) : TypeDef → Prop := fun _ => True
 
-theorem fieldShown (o : Opts) (f : FieldDef) (h1 : startsWith2Underscores f.name = false)
-    (h2 : (o.federation && (f.name = s "_service" || f.name = s "_entities")) = false) : FieldShown o f := by
-  unfold FieldShown; rw [h1, h2]; rfl
+theorem fieldShown (o : Opts) (f : FieldDef) (h1 : startsWith2Underscores f.name = false) : FieldShown o f := by
+  unfold FieldShown; rw [h1]; rfl
 
 theorem Lx_typeDef (o : Opts) (t : TypeDef) (hs : SkelType t) (hff : FedFields o t) (rest : Text) (ts : List Tok)
     (h : Lx rest ts) : Lx (exportType Defects.none o t ++ rest) (defToks o t ++ ts) := by
@@ -129,12 +124,12 @@ theorem Lx_typeDef (o : Opts) (t : TypeDef) (hs : SkelType t) (hff : FedFields o
     by_cases hsys : isSystemScalar o (.scalar n a url) = true
     · have hsys2 := hsys
       simp only [isSystemScalar] at hsys2
-      have hc : n ∈ systemScalars ∨ (o.federation = true ∧ n ∈ federationScalars) := by simpa using hsys2
-      simpa [exportType, defToks, hsys, hc] using h
+      have hc : n ∈ systemScalars := by simpa using hsys2
+      simpa [exportType, Defects.none, defToks, hsys, hc] using h
     · have hsys' : isSystemScalar o (.scalar n a url) = false := by simpa using hsys
       have hsys3 := hsys'
       simp only [isSystemScalar] at hsys3
-      have hsys2 : ¬ (n ∈ systemScalars ∨ (o.federation = true ∧ n ∈ federationScalars)) := by simpa using hsys3
+      have hsys2 : ¬ (n ∈ systemScalars) := by simpa using hsys3
       have h1 : Lx ('\n' :: '\n' :: rest) ts := Lx.ign (by decide) (Lx.ign (by decide) h)
       have hve : ValEnd ('\n' :: '\n' :: rest) := valEnd_ign '\n' _ (by decide)
       have hd := Lx_fedDirs o a ha _ _ hve h1
@@ -149,23 +144,23 @@ theorem Lx_typeDef (o : Opts) (t : TypeDef) (hs : SkelType t) (hff : FedFields o
       cases hsb : o.specifiedBy with
       | false =>
         have := key [] [] (by simpa using hdn) (by simpa [dirsToks] using hd)
-        simpa [exportType, hsys2, hsb, defToks, hsys', isExt, tdAttrs, defCore, typeApps, specApps,
+        simpa [exportType, Defects.none, hsys2, hsb, defToks, hsys', isExt, tdAttrs, defCore, typeApps, specApps,
           s, kw, List.append_assoc] using this
       | true =>
         cases url with
         | none =>
           have := key [] [] (by simpa using hdn) (by simpa [dirsToks] using hd)
-          simpa [exportType, hsys2, hsb, defToks, hsys', isExt, tdAttrs, defCore, typeApps, specApps,
+          simpa [exportType, Defects.none, hsys2, hsb, defToks, hsys', isExt, tdAttrs, defCore, typeApps, specApps,
             s, kw, List.append_assoc] using this
         | some u =>
           have := key (s " @specifiedBy(url: \"" ++ tagText Defects.none u ++ s "\")") [⟨kwT "specifiedBy", [(kwT "url", .str u)]⟩]
             (by simp only [s]; exact nameEnd_of_ignored ' ' _ (by decide))
             (by simpa [List.append_assoc] using Lx_specifiedBy u _ _ hd)
-          simpa [exportType, hsys2, hsb, defToks, hsys', isExt, tdAttrs, defCore, typeApps, specApps,
+          simpa [exportType, Defects.none, hsys2, hsb, defToks, hsys', isExt, tdAttrs, defCore, typeApps, specApps,
             s, kw, List.append_assoc] using this
   | object n a ext impls fs =>
     obtain ⟨hn, ha, himpl, _, hfs⟩ := hs
-    have hfs' : ∀ f ∈ fs, SkelField f ∧ FieldShown o f := fun f hf => ⟨(hfs f hf).1, fieldShown o f (hfs f hf).2 (hff f hf)⟩
+    have hfs' : ∀ f ∈ fs, SkelField f ∧ FieldShown o f := fun f hf => ⟨(hfs f hf).1, fieldShown o f (hfs f hf).2⟩
     have hb := Lx_braces (exportFields Defects.none o fs) rest (fieldsToks o (sorted o.sortedFields (·.name) fs)) ts
       (fun r t hrt => Lx_fields o fs hfs' r t hrt) h
     have hve := braces_valEnd (exportFields Defects.none o fs) rest
@@ -201,7 +196,7 @@ theorem Lx_typeDef (o : Opts) (t : TypeDef) (hs : SkelType t) (hff : FedFields o
       simpa [defToks, isSystemScalar, isExt, hfe, tdAttrs, defCore, typeApps, List.append_assoc] using h3
   | interface n a ext impls fs =>
     obtain ⟨hn, ha, himpl, _, hfs⟩ := hs
-    have hfs' : ∀ f ∈ fs, SkelField f ∧ FieldShown o f := fun f hf => ⟨(hfs f hf).1, fieldShown o f (hfs f hf).2 (hff f hf)⟩
+    have hfs' : ∀ f ∈ fs, SkelField f ∧ FieldShown o f := fun f hf => ⟨(hfs f hf).1, fieldShown o f (hfs f hf).2⟩
     have hb := Lx_braces (exportFields Defects.none o fs) rest (fieldsToks o (sorted o.sortedFields (·.name) fs)) ts
       (fun r t hrt => Lx_fields o fs hfs' r t hrt) h
     have hve := braces_valEnd (exportFields Defects.none o fs) rest
